@@ -1,6 +1,6 @@
 (* C07 — File conflicts follow replaces/origin rules; the installed DB tells
    the truth. Property theorems only; proofs in Proofs/InstallProofs.v. *)
-From Apko Require Import Base.Prelude Model.Install Spec.InstallSpec Proofs.InstallProofs.
+From Apko Require Import Base.Prelude Base.C07Lib Generated.C07Install Generated.FsConsts Model.Install Spec.InstallSpec Proofs.InstallProofs.
 Open Scope string_scope. Open Scope list_scope.
 
 (* tarfs.writeHeader decides exactly by the rule table whenever at least one of
@@ -74,7 +74,9 @@ Proof. intros dirs x a b bk. destruct bk; eexists; (split; [vm_compute; reflexiv
 (* For EVERY ordered package list, backend and initial tree: after a successful
    install, whenever installedFiles names package i for a path, the node there
    is package i's regular file (its content and mode), the header is listed
-   under package i after the DeleteFunc pruning and under no other package.
+   under package i after the DeleteFunc pruning and no other package lists a
+   file or link of that path (directory headers are never pruned: their names
+   end in "/" and are no keys of installedFiles).
    Hypothesis: no path is shipped as a regular file by one package and as a
    symbolic link by another — without it the statement fails on tarfs, see
    [c07_owner_invariant_mixed_kinds_refuted] (finding C07-F5). *)
@@ -84,7 +86,7 @@ Theorem c07_owner_invariant : forall b pkgs init f,
     exists h, In h (p_files (nth i pkgs no_pkg)) /\ h_kind h = KReg /\ h_path h = p /\
       fs_get (f_fs f) p = Some (NFile (h_sum h) (h_mode h) (Some i) true) /\
       In h (prune (f_if f) i (nth i (f_files f) [])) /\
-      (forall k h', In h' (prune (f_if f) k (nth k (f_files f) [])) -> h_path h' = p -> k = i).
+      (forall k h', In h' (prune (f_if f) k (nth k (f_files f) [])) -> h_kind h' <> KDir -> h_path h' = p -> k = i).
 Proof. exact owner_invariant. Qed.
 Print Assumptions c07_owner_invariant.
 
@@ -141,6 +143,157 @@ Example c07_partial_inhabited : exists f entries,
   if_get (f_if f) ["usr"; "bin"; "x"] = Some 0.
 Proof. eexists _, _. repeat split; vm_compute; reflexivity. Qed.
 
+(* Every recorded entry exists in the tree with the recorded KIND (the database
+   text tells directories, F:, from everything else, R:): a recorded directory
+   header is a directory of the tree, any other recorded header is a regular
+   file or a link. For every backend, package list (no header with the empty
+   path) and initial tree on which the model answers. With path resolution
+   through symbolic links the statement is false, see
+   [c07_db_kind_with_links_refuted] (finding C07-F11). *)
+Theorem c07_db_kind_true : forall b pkgs init f,
+  install b pkgs init = RDone f ->
+  (forall h, In h (all_hdrs pkgs) -> h_path h <> []) ->
+  forall k entries h, nth_error (f_db f) k = Some entries -> In h entries ->
+    match h_kind h with
+    | KDir => exists md, fs_get (f_fs f) (h_path h) = Some (NDir md)
+    | _ => match fs_get (f_fs f) (h_path h) with
+           | Some (NFile _ _ _ _) | Some (NSym _ _ _) => True
+           | _ => False
+           end
+    end.
+Proof. exact db_kind_true. Qed.
+Print Assumptions c07_db_kind_true.
+
+Theorem c07_db_kind_with_links_refuted : forall b, exists pkgs f entries h tg ow lk,
+  install_l b pkgs [] = RDone f /\ nth_error (f_db f) 1 = Some entries /\ In h entries /\
+  h_kind h = KDir /\ fs_get (f_fs f) (h_path h) = Some (NSym tg ow lk).
+Proof.
+  intro b. destruct (db_kind_links_witness b) as (f & entries & A & B & C & D).
+  eexists _, f, entries, wit_x_dir, _, _, _. repeat split; eauto.
+Qed.
+Print Assumptions c07_db_kind_with_links_refuted.
+
+(* [c07_db_matches_fs_partial] for SYMBOLIC-LINK entries. On the streaming
+   backends (memfs, dirfs) the statement holds in full: every recorded link
+   entry is in the tree with the recorded target and is that package's own (an
+   identical link of a later package is skipped and not recorded, a different
+   one fails the build). On tarfs it is false: the header is recorded whether or
+   not the link was written, and a link that is later replaced by the rules
+   stays recorded (finding C07-F5); what holds there is [c07_db_kind_true]. *)
+Theorem c07_db_symlink_entries_stream : forall b pkgs init f,
+  is_lazy b = false -> install b pkgs init = RDone f ->
+  forall k entries h, nth_error (f_db f) k = Some entries -> In h entries -> h_kind h = KSym ->
+    fs_get (f_fs f) (h_path h) = Some (NSym (h_sum h) (Some k) (h_link h)).
+Proof. exact db_symlink_entries_stream. Qed.
+Print Assumptions c07_db_symlink_entries_stream.
+
+Theorem c07_db_symlink_entries_lazy_refuted : exists pkgs f entries h tg,
+  install Lazy pkgs [] = RDone f /\ nth_error (f_db f) 0 = Some entries /\ In h entries /\ h_kind h = KSym /\
+  fs_get (f_fs f) (h_path h) = Some (NSym tg (Some 1) []) /\ tg <> h_sum h.
+Proof.
+  destruct db_symlink_entry_stale_lazy as (pkgs & f & entries & A & B & C & D).
+  exists pkgs, f, entries, (wit_sx 2), 3%N. repeat split; auto. discriminate.
+Qed.
+Print Assumptions c07_db_symlink_entries_lazy_refuted.
+
+Example c07_symlink_entries_inhabited : exists f entries,
+  install StreamMem [ {| p_name := "a"; p_origin := "a"; p_replaces := []; p_files := wit_dirs ++ [wit_sx 2] |} ] [] = RDone f /\
+  nth_error (f_db f) 0 = Some entries /\ In (wit_sx 2) entries.
+Proof. eexists _, _. split; [vm_compute; reflexivity|]. split; [vm_compute; reflexivity | vm_compute; tauto]. Qed.
+
+(* ... for HARD-LINK entries: the entry exists as a non-directory
+   ([c07_db_kind_true]); the recorded MODE is the link header's own while the
+   node is the target's, so "exists with the recorded mode" is false on every
+   backend (finding C07-F9: c ships usr/bin/l 0600, d ships the same bytes 0755
+   and the hard link l.ln 0755: the first copy stays, the link shares it) *)
+Theorem c07_db_hardlink_mode_refuted : forall b,
+  ~ (forall pkgs init f, install b pkgs init = RDone f ->
+       forall k entries h, nth_error (f_db f) k = Some entries -> In h entries -> h_kind h = KLink ->
+         exists n, fs_get (f_fs f) (h_path h) = Some n /\ node_perm n = perm_of (h_mode h)).
+Proof. exact db_hardlink_mode_refuted. Qed.
+Print Assumptions c07_db_hardlink_mode_refuted.
+
+(* A header that survives the DeleteFunc pruning IS written to the database
+   whenever its package also ships a directory header for every ancestor (the
+   condition under which sortTarHeaders reaches it; without it the entry is
+   dropped, finding C07-F7). Paths of one component are never written unless
+   they are directories with children (same finding). *)
+Theorem c07_pruned_header_written : forall b pkgs init f k me h,
+  install b pkgs init = RDone f ->
+  nth_error pkgs k = Some me ->
+  In h (prune (f_if f) k (nth k (f_files f) [])) ->
+  (2 <= List.length (h_path h))%nat ->
+  (forall q, In q (prefixes (parent (h_path h))) -> exists d, In d (p_files me) /\ h_path d = q /\ h_kind d = KDir) ->
+  exists entries, nth_error (f_db f) k = Some entries /\ In h entries.
+Proof. exact pruned_header_written. Qed.
+Print Assumptions c07_pruned_header_written.
+
+(* together with [c07_owner_invariant]: the owner's header of every owned path
+   is written under the owner and under nobody else *)
+Example c07_written_inhabited : exists f h,
+  install Lazy [ {| p_name := "a"; p_origin := "a"; p_replaces := [];
+                    p_files := wit_dirs ++ [ {| h_path := ["usr"; "bin"; "x"]; h_kind := KReg; h_mode := 493;
+                                                h_uid := 0; h_gid := 0; h_sum := 2; h_link := [] |} ] |} ] [] = RDone f /\
+  In h (prune (f_if f) 0 (nth 0 (f_files f) [])) /\ h_path h = ["usr"; "bin"; "x"].
+Proof. eexists _, _. split; [vm_compute; reflexivity|]. split; [vm_compute; right; right; left; reflexivity | reflexivity]. Qed.
+
+(* The model the correspondence runs, [install_l], resolves paths through
+   symbolic links (getNode / MkdirAll / openFile of the three filesystems) where
+   [install] declines; wherever [install] answers, success or error of the real
+   code, [install_l] gives the same answer: every theorem above about [install]
+   is a theorem about the compared model on those inputs. *)
+Theorem c07_install_l_conservative : forall b pkgs init,
+  (forall s, install b pkgs init <> RFail EUnsupported s) ->
+  install_l b pkgs init = install b pkgs init.
+Proof. exact install_l_conservative. Qed.
+Print Assumptions c07_install_l_conservative.
+
+Example c07_install_l_extends : forall b, exists s f,
+  install b [ {| p_name := "a"; p_origin := "a"; p_replaces := []; p_files := wit_dirs ++ [wit_usr_lib; wit_x_link] |};
+              {| p_name := "b"; p_origin := "b"; p_replaces := []; p_files := wit_dirs ++ [wit_x_dir] |} ] [] = RFail EUnsupported s /\
+  install_l b [ {| p_name := "a"; p_origin := "a"; p_replaces := []; p_files := wit_dirs ++ [wit_usr_lib; wit_x_link] |};
+                {| p_name := "b"; p_origin := "b"; p_replaces := []; p_files := wit_dirs ++ [wit_x_dir] |} ] [] = RDone f.
+Proof. intro b. destruct b; eexists _, _; (split; vm_compute; reflexivity). Qed.
+
+(* ---- the tie to the source text ------------------------------------------
+   goextract writes the ORDER OF TESTS of the two decision procedures down as
+   rows (condition, outcome) of Base/C07Lib.v, from the current source: reading
+   the rows in source order gives exactly [decide_lazy] / [decide_stream].
+   Reordering the tests in /repo (say, the Replaces test before the checksum
+   test), dropping one, or changing an outcome changes the generated rows and
+   this theorem no longer holds. *)
+Theorem c07_lazy_order_is_source : forall got want gs ws,
+  crun (env_lazy got want gs ws) c07_writeheader_rows c07_writeheader_default =
+  out_of_decision (decide_lazy got want gs ws).
+Proof. exact lazy_rows_are_source. Qed.
+Print Assumptions c07_lazy_order_is_source.
+
+Theorem c07_stream_order_is_source : forall owner want same,
+  crun (env_stream owner want same) c07_installregular_rows c07_installregular_default =
+  out_of_sdecision (decide_stream owner want same).
+Proof. exact stream_rows_are_source. Qed.
+Print Assumptions c07_stream_order_is_source.
+
+(* writeOneFile tests the name with Stat, removes the old entry before an
+   allowed overwrite and creates the file O_CREATE|O_EXCL (no O_TRUNC/O_APPEND):
+   the node is NEW, with the header's mode, as [set_file] has it; installedFiles
+   is updated for regular files only on both paths (what makes finding C07-F5);
+   the database records mode & 0777 and leaves 0755 / 0644 out of the text; the
+   nesting limit of the path resolution is maxLinks of both filesystems *)
+Theorem c07_model_constants_are_source :
+  creates_fresh_node c07_wof_exists_test c07_wof_open_flags c07_wof_removes_before_create = true /\
+  (forall (s : st) i h loc,
+     (s_if (set_file s i h) = if has_flag (kind_tar_name (h_kind h)) c07_lazy_tracked then if_set (s_if s) (h_path h) i else s_if s) /\
+     (s_if (set_file s i h) = if has_flag (kind_tar_name (h_kind h)) c07_stream_tracked then if_set (s_if s) (h_path h) i else s_if s) /\
+     s_if (set_at s i h loc) = s_if (set_file s i h)) /\
+  (forall m, perm_of m = N.land m c07_db_perm_mask /\ c07_db_default_dir_perm = 493%N /\ c07_db_default_file_perm = 420%N) /\
+  (max_links = tarfs_getnode_depth /\ max_links = memfs_getnode_depth /\
+   max_links = tarfs_openfile_depth /\ max_links = memfs_openfile_depth).
+Proof.
+  exact (conj write_one_file_creates_fresh (conj tracked_kinds_are_source (conj db_perm_is_source max_links_is_source))).
+Qed.
+Print Assumptions c07_model_constants_are_source.
+
 (* the rule-table validator run on the real code's observations decides the
    readable statement *)
 Theorem c07_rules_validator_decides : forall pkgs e tree,
@@ -150,7 +303,7 @@ Print Assumptions c07_rules_validator_decides.
 
 (* ... and so does the per-entry validator (every recorded entry exists with the
    recorded kind, mode, owner and content) *)
-Theorem c07_entry_validator_decides : forall b pre tree fm d,
-  check_entry b pre tree fm d = [] <-> EntryTrue tree d.
+Theorem c07_entry_validator_decides : forall b pre tree fm al th d,
+  check_entry b pre tree fm al th d = [] <-> EntryTrue tree d.
 Proof. exact entry_validator_decides. Qed.
 Print Assumptions c07_entry_validator_decides.
